@@ -414,7 +414,8 @@ def run_layer_api(lmon, base, idx, r, sh):
         lmon.call({"op": "init", "layers_dir": os.path.join(root, "layers"), "app_dir": root, "bp_dir": root})
         f1 = {"build": r.random() < 0.5, "launch": r.random() < 0.5}
         f2 = {"build": r.random() < 0.5, "launch": r.random() < 0.5}
-        md = rnd_plain_table(r)
+        # (every third: the full value space of TOML - date-times, floats incl. non-finite ones, nested arrays of tables)
+        md = rnd_plain_table(r) if idx % 3 else tomlw.rnd_table(r, 1)
         L = r.choice(["L", "ruby-3.2", "a.b.c", "it's", "with space", "é"])      # the file is <layers>/<name>.toml whatever the name looks like
         req = lambda fl: dict(op="cached", name=L, mtype="generic", restored={"action": "keep", "cause": "c"}, invalid={"action": "delete", "cause": "i"}, **fl)
         steps = [req(f1), {"op": "write_metadata", "name": L, "metadata": tomlw.tagged(md)}]
